@@ -227,7 +227,7 @@ Qed.
    float v / s; [TieLib.runs_to P o]: the run o ends normally in a state satisfying P.
    ====================================================================================== *)
 From Coq Require QArith.
-From PV Require MiniPy.Syntax MiniPy.Interp MiniTorch.OpsC07 MiniTorch.OpsC01 C01.SrcRun C01.TieLib C01.TieMath
+From PV Require MiniPy.Syntax MiniPy.Interp MiniTorch.OpsC07 MiniTorch.OpsC01 Gen.C01Src C01.SrcRun C01.TieLib C01.TieMath
   C01.TieLoop C01.TieWhole C01.Tie.
 
 (* priority 1: ONE EXECUTION OF THE LOOP BODY (hyp_idx = k) on ref (R x N), hyp (H x N), hyp_lens (N), del_mat
@@ -277,6 +277,36 @@ Theorem c01_source_edit_distance_is_model :
 Proof. exact Tie.edit_distance_is_model. Qed.
 Print Assumptions c01_source_edit_distance_is_model.
 
+(* THE WHOLE BODY OF THE FUNCTION AS ONE TERM (Gen.C01Src.sm_body, every statement of _string_matching): the same
+   statement.  (sm_body is the block sequence with another name for one tuple-unpacking temporary; its loop body is
+   run again in TieBody.v.) *)
+Theorem c01_source_string_matching_is_model :
+  forall (s : positive) (c : cfg) (N R H : nat) (ref hyp : list (list Z)) (w : bool) (pad : Z),
+  (0 < N)%nat -> Tie.wf_src (c_bf c) N R ref -> Tie.wf_src (c_bf c) N H hyp ->
+  (c_eos c <> None -> R <> 0%nat /\ H <> 0%nat) ->
+  exists st', Tie.run_string_matching s c N ref hyp w pad
+              = MiniPy.Interp.Ok
+                  (MiniTorch.OpsC01.enc_x
+                     (MiniTorch.OpsC07.mkTn [N] (map (TieWhole.val_fx s) (edit_distance c N ref hyp)))) st'.
+Proof. exact Tie.string_matching_is_model. Qed.
+Print Assumptions c01_source_string_matching_is_model.
+
+Theorem c01_source_string_matching_is_lev :
+  forall (s : positive) (c : cfg) (N R H : nat) (ref hyp : list (list Z)) (w : bool) (pad : Z),
+  (0 < N)%nat -> Tie.wf_src (c_bf c) N R ref -> Tie.wf_src (c_bf c) N H hyp ->
+  (c_eos c <> None -> R <> 0%nat /\ H <> 0%nat) -> c_norm c = false ->
+  exists out st',
+    Tie.run_string_matching s c N ref hyp w pad
+    = MiniPy.Interp.Ok (MiniTorch.OpsC01.enc_x (MiniTorch.OpsC07.mkTn [N] out)) st' /\
+    length out = N /\
+    forall n, (n < N)%nat ->
+      nth n out MiniTorch.OpsC01.FNaN =
+      TieMath.zf s (lev (c_ins c) (c_del c) (c_sub c)
+                      (denote (c_eos c) (c_incl c) (seq_of (c_bf c) n ref))
+                      (denote (c_eos c) (c_incl c) (seq_of (c_bf c) n hyp))).
+Proof. exact Tie.string_matching_is_lev. Qed.
+Print Assumptions c01_source_string_matching_is_lev.
+
 (* the executable the harness evaluates on the cases of every run IS that run *)
 Theorem c01_source_src_ed_is_model :
   forall (c : cfg) (scale : Z) (N R H : nat) (ref hyp : list (list Z)),
@@ -286,6 +316,15 @@ Theorem c01_source_src_ed_is_model :
   = Some (Some (map (TieWhole.val_fx (Z.to_pos scale)) (edit_distance c N ref hyp))).
 Proof. exact Tie.src_ed_is_model. Qed.
 Print Assumptions c01_source_src_ed_is_model.
+
+Theorem c01_source_src_ed_body_is_model :
+  forall (c : cfg) (scale : Z) (N R H : nat) (ref hyp : list (list Z)),
+  (0 < N)%nat -> Tie.wf_src (c_bf c) N R ref -> Tie.wf_src (c_bf c) N H hyp ->
+  (c_eos c <> None -> R <> 0%nat /\ H <> 0%nat) ->
+  SrcRun.src_ed Gen.C01Src.sm_body c scale N ref hyp
+  = Some (Some (map (TieWhole.val_fx (Z.to_pos scale)) (edit_distance c N ref hyp))).
+Proof. exact Tie.src_ed_body_is_model. Qed.
+Print Assumptions c01_source_src_ed_body_is_model.
 
 (* composed with c01_edit_distance_correct - a statement purely about the interpreted source: without
    normalisation entry n of the returned tensor is the weighted Levenshtein distance (in units of 1 / s) of
